@@ -108,7 +108,6 @@ Fixpoint run_with (stepf : mach -> Z -> mout) (m : mach) (cs : list Z) : rout :=
   | c :: r => match stepf m c with
               | MOk m1 | MErr m1 => run_with stepf m1 r
               | MPanic s => RunPanic s
-              | MDiverge => RunDiverge
               end
   end.
 Definition run_petscii (m : mach) (cs : list Z) : rout := run_with petscii_step m cs.
